@@ -453,7 +453,14 @@ func parseContractFile(path, pkgPath string) (*ContractFile, error) {
 			}
 			fs := strings.Fields(rest)
 			if len(fs) != 2 {
-				return nil, fmt.Errorf("%s:%d: calls PARAM once|any", path, rl.line)
+				return nil, fmt.Errorf("%s:%d: calls PARAM once|loop|retry|pure", path, rl.line)
+			}
+			switch fs[1] {
+			case "once", "loop", "retry", "pure":
+			default:
+				// an unknown mode used to switch off the havoc of what the closure
+				// captures without running it - unsound; rejected
+				return nil, fmt.Errorf("%s:%d: calls %s %s: unknown mode (once|loop|retry|pure)", path, rl.line, fs[0], fs[1])
 			}
 			cur.Calls[fs[0]] = fs[1]
 		case "results":
